@@ -188,3 +188,31 @@ package litonlylzma
 //@ func (FileFormat).Encode
 //@   prop C17
 //@   modifies mem(dst)
+
+// The fixed 24-byte XZ header: magic, stream flags, and both CRC-32 fields against the
+// CRC-32 definition (reflected polynomial 0xEDB88320, bit by bit), by ground evaluation.
+//@ spec crcStep(x uint32) uint32 = ite(x & 1 == 1, (x >> 1) ^ 0xEDB88320, x >> 1)
+//@ spec crc8(x uint32) uint32 = crcStep(crcStep(crcStep(crcStep(crcStep(crcStep(crcStep(crcStep(x))))))))
+//@ spec crcb(h uint32, v uint8) uint32 = crc8((h ^ uint32(v)) & 0xFF) ^ (h >> 8)
+//@ spec le32s(o int) uint32 = uint32(xzHeader24[o]) | uint32(xzHeader24[o+1]) << 8 | uint32(xzHeader24[o+2]) << 16 | uint32(xzHeader24[o+3]) << 24
+// Each line is one byte step of the CRC (the running value is spelled out so that no
+// term nests another): stream flags (bytes 6..7, field at 8) and block header (bytes
+// 12..19, field at 20).
+//@ lemma xzheader
+//@   prop C17
+//@   mode bv
+//@   expand
+//@   ensures len(xzHeader24) == 24 && xzHeader24[0] == 0xFD && xzHeader24[1] == '7' && xzHeader24[2] == 'z' && xzHeader24[3] == 'X' && xzHeader24[4] == 'Z' && xzHeader24[5] == 0 && xzHeader24[6] == 0 && xzHeader24[7] == 1
+//@   ensures xzHeader24[12] == 2 && xzHeader24[14] == 0x21 && xzHeader24[15] == 1
+//@   ensures crcb(0xFFFFFFFF, xzHeader24[6]) == 0x2DFD1072
+//@   ensures crcb(0x2DFD1072, xzHeader24[7]) == 0xC921DD96
+//@   ensures le32s(8) == 0xC921DD96 ^ 0xFFFFFFFF
+//@   ensures crcb(0xFFFFFFFF, xzHeader24[12]) == 0xC3F3715E
+//@   ensures crcb(0xC3F3715E, xzHeader24[13]) == 0x8C108F82
+//@   ensures crcb(0x8C108F82, xzHeader24[14]) == 0x4F53E2DD
+//@   ensures crcb(0x4F53E2DD, xzHeader24[15]) == 0x8F2ACD1D
+//@   ensures crcb(0x8F2ACD1D, xzHeader24[16]) == 0x63894614
+//@   ensures crcb(0x63894614, xzHeader24[17]) == 0x1AB95D3B
+//@   ensures crcb(0x1AB95D3B, xzHeader24[18]) == 0xB1115079
+//@   ensures crcb(0xB1115079, xzHeader24[19]) == 0x2968D8C8
+//@   ensures le32s(20) == 0x2968D8C8 ^ 0xFFFFFFFF
